@@ -91,17 +91,17 @@ fn wrap_menus(r32: usize) -> Vec<Vec<usize>> {
     ]
 }
 
-struct SingleCase {
-    alpha: &'static str,
-    cfg: SCfg,
-    len: usize,
-    pat: u32,
-    wild: bool,
-    wraps: Vec<usize>,
+pub struct SingleCase {
+    pub alpha: &'static str,
+    pub cfg: SCfg,
+    pub len: usize,
+    pub pat: u32,
+    pub wild: bool,
+    pub wraps: Vec<usize>,
 }
 
 impl SingleCase {
-    fn json(&self) -> Value {
+    pub fn json(&self) -> Value {
         json!({"kind": "single", "alphabet": self.alpha, "cfg": self.cfg.name(), "len": self.len, "pattern": self.pat, "wildcard_injected": self.wild, "wraps": self.wraps})
     }
 }
@@ -114,7 +114,7 @@ fn seq_for(k: usize, len: usize, pat: u32, wild: bool) -> Vec<u8> {
     }
 }
 
-fn run_single_case<A: Alphabet>(case: &SingleCase, rep: &mut Report) {
+pub fn run_single_case<A: Alphabet>(case: &SingleCase, rep: &mut Report) {
     let k = model::k_of::<A>();
     let wildcard = (k - 1) as u8;
     let seq = seq_for(k, case.len, case.pat, case.wild);
@@ -338,8 +338,9 @@ impl<A: Alphabet> HSys<A> {
     }
 }
 
-fn run_histories<A: Alphabet>(alpha: &'static str, ctx: &mut Ctx, rep: &mut Report, depth: usize) {
+pub fn run_histories<A: Alphabet>(alpha: &'static str, ctx: &mut Ctx, rep: &mut Report, depth: usize) {
     let oplist = hist_ops(ctx.quick());
+    let quick = ctx.quick();
     let nops = oplist.len();
     let deadline = ctx.deadline;
     let mut viol: Vec<(String, String, Vec<usize>)> = Vec::new();
@@ -352,6 +353,9 @@ fn run_histories<A: Alphabet>(alpha: &'static str, ctx: &mut Ctx, rep: &mut Repo
         |hist, op| {
             let mut full = hist.to_vec();
             full.push(op);
+            if !vx_core::util::crumb_bfs(|| json!({"module": "C04", "case": {"kind": "history", "alphabet": alpha, "ops": full, "quick_table": quick}}).to_string()) {
+                return Bfs { key: None };
+            }
             let r = catch(|| {
                 let mut s = HSys::<A>::new();
                 for &o in hist {
